@@ -103,6 +103,7 @@ func H_C12_Fixed() {
 // H_C12_DateMillis: NewDateFromMillis(m) for every m >= 0: Int()==m, big-endian bytes, Time().UnixMilli()==m; negative rejected.
 //
 //verif:props C12 C15
+//verif:solver cvc5
 //verif:witness ok
 func H_C12_DateMillis() {
 	m := nd.Int64()
@@ -124,6 +125,7 @@ func H_C12_DateMillis() {
 // H_C12_DateUnix: NewDateFromUnix(s): accepted values store s*1000 exactly.
 //
 //verif:props C12 C15
+//verif:solver cvc5
 func H_C12_DateUnix() {
 	s := nd.Int64()
 	d, err := data.NewDateFromUnix(s)
@@ -143,6 +145,7 @@ func H_C12_DateUnix() {
 // H_C12_DateFromTime: DateFromTime(time.Unix(s,ns)) stores floor milliseconds for in-range instants.
 //
 //verif:props C12 C15
+//verif:solver cvc5
 func H_C12_DateFromTime() {
 	s := nd.Int64()
 	ns := nd.Int64()
